@@ -321,7 +321,8 @@ class Collector:
                 continue
             for viol in obs:
                 if check_sig and viol.get("want") and viol.get("node_calls") and not viol["sig"].startswith("unmonitored") \
-                        and viol["symptom"] not in ("panic", "value-changes-between-calls"):
+                        and viol["symptom"] not in ("panic", "value-changes-between-calls") \
+                        and not viol["symptom"].startswith("after-failed-advance"):
                     mine = signature(viol["node"], viol["node_calls"], viol["want"], viol.get("node_denotation") or [],
                                      case["table"])
                     if mine != viol["sig"]:
@@ -366,6 +367,13 @@ def describe(viol, tab):
     shown = " ".join(fmt_id(tab, r) for r in dd[:10]) + (" ... (%d values)" % len(dd) if len(dd) > 10 else "")
     if len(calls) > 8:
         calls = ["..."] + calls[-8:]
+    if (viol.get("symptom") or "").startswith("after-failed-advance"):
+        return ("%s over {%s}: calls %s; after an Advance that returned false, further Next calls must yield only "
+                "remaining values of the set in increasing order and then end, whether or not the failed Advance "
+                "moved the iterator (%s%s) [top-level query %s, calls %s, index %s, kind %s/%s]" % (
+                    viol["node"], shown, " ".join(calls), viol["symptom"],
+                    (" " + viol["got_id"]) if viol.get("got_id") else "", qstr(viol["query"]),
+                    ",".join(viol.get("top_calls") or []), canon(viol.get("idx")), viol.get("kind"), viol.get("profile")))
     return "%s over {%s}: calls %s; the specification says the last call gives %s (%s%s) [top-level query %s, calls %s, index %s, kind %s/%s]" % (
         viol["node"], shown, " ".join(calls), w,
         viol["symptom"], (" " + viol["got_id"]) if viol.get("got_id") else "", qstr(viol["query"]),
@@ -382,7 +390,7 @@ def make_replay(viol, case, model):
     """A self-contained walk case that re-executes exactly the failing top-level call sequence."""
     qi = model.qindex.get(canon(strip(viol["query"])))
     ik = canon(case["idx"])
-    out = {k: case[k] for k in ("kind", "profile", "variant", "table", "idx") if k in case}
+    out = {k: case[k] for k in ("kind", "profile", "variant", "table", "idx", "after_fail") if k in case}
     if qi is None or ik not in model.dens:
         out.update({"note": "query not in the model", "violation": viol})
         return {"adapter": "walk", "case": out}
